@@ -51,6 +51,8 @@ func main() {
 		return
 	case "c05":
 		runC05(r, a, out)
+	case "nest": // disjunctions as field values and disjunctions of such structs vs Core/Nest.v, see nest.go
+		runNest(r, a, out)
 	case "", "eval":
 		g := NewGen(r, GenCfg{MaxDepth: common.Atoi(a["--depth"], 3), Closedness: a["--closed"] != "0", Bounds: true})
 		src, _ := os.Create(a["--out"] + "/src.txt")
